@@ -27,15 +27,13 @@ def run(ctx):
     import translate
     ev = translate.make_evaluator(irall)
     tie = {"log_evidence_ratio": [True, ""], "log_evidence_ratio_variance": [True, ""]}
-    for r in runs:
-        if r.error is not None:
-            continue
+    def audit(r, key, extra=None):
         cfg, h = r.cfg, r.history
-        key = f"{cfg['seed']}"
+        rep0 = dict({"cfg": cfg}, **(extra or {}))
         T = len(h.beta)
         if len(h.log_norm_ratio) != T or len(h.sample_history) != T + 1:
-            ctx.violation(f"one-ratio-per-iteration:{key}", f"{len(h.log_norm_ratio)} ratios, {len(h.sample_history)} populations for {T} iterations", {"cfg": cfg})
-            continue
+            ctx.violation(f"one-ratio-per-iteration:{key}", f"{len(h.log_norm_ratio)} ratios, {len(h.sample_history)} populations for {T} iterations", rep0)
+            return
         tot, totv = mp.mpf(0), mp.mpf(0)
         f32 = "float32" in str(h.sample_history[0].dtype)
         rel = 1e-4 if f32 else 1e-9
@@ -45,9 +43,9 @@ def run(ctx):
             got, gotv = nsutil.to_float(h.log_norm_ratio[t]), nsutil.to_float(h.log_norm_ratio_var[t])
             if abs(got - ratio) > rel * (1 + abs(ratio)):
                 ctx.violation(f"ratio-definition:{key}:{t}", f"recorded ratio {got} != log mean incremental weight {ratio} (iteration {t+1})",
-                              {"cfg": cfg, "iteration": t + 1, "beta": float(h.beta[t])})
+                              dict(rep0, iteration=t + 1, beta=float(h.beta[t])))
             if abs(gotv - rvar) > 100 * rel * (1e-12 + abs(rvar)):
-                ctx.violation(f"variance-definition:{key}:{t}", f"recorded variance {gotv} != {rvar}", {"cfg": cfg, "iteration": t + 1})
+                ctx.violation(f"variance-definition:{key}:{t}", f"recorded variance {gotv} != {rvar}", dict(rep0, iteration=t + 1))
             tot += mp.mpf(got)
             totv += mp.mpf(gotv)
             if irall and t < 2 and not f32:
@@ -63,12 +61,16 @@ def run(ctx):
                 except Exception as e:
                     tie["log_evidence_ratio"] = [False, repr(e)]
         le, lee = nsutil.to_float(r.result.log_evidence), nsutil.to_float(r.result.log_evidence_error)
-        ctx.sample({"cfg": {k: cfg[k] for k in ("kind", "ns", "N", "s")}, "iterations": T, "log_evidence": le,
-                    "sum_of_ratios": float(tot)})
+        if extra is None:
+          ctx.sample({"cfg": {k: cfg[k] for k in ("kind", "ns", "N", "s")}, "iterations": T, "log_evidence": le,
+                      "sum_of_ratios": float(tot)})
         if abs(le - float(tot)) > 10 * rel * (1 + abs(float(tot))):
-            ctx.violation(f"evidence-is-sum:{key}", f"log_evidence {le} != sum of ratios {float(tot)}", {"cfg": cfg})
+            ctx.violation(f"evidence-is-sum:{key}", f"log_evidence {le} != sum of ratios {float(tot)}", rep0)
         if not (abs(lee - math.sqrt(float(totv))) <= 100 * rel * (1e-12 + abs(lee))):
-            ctx.violation(f"error-is-root-sum-var:{key}", f"log_evidence_error {lee} != sqrt(sum var) {math.sqrt(float(totv))}", {"cfg": cfg})
+            ctx.violation(f"error-is-root-sum-var:{key}", f"log_evidence_error {lee} != sqrt(sum var) {math.sqrt(float(totv))}", rep0)
+    for r in runs:
+        if r.error is None:
+            audit(r, f"{r.cfg['seed']}")
     # metamorphic pairs: same generators, different cadence / final enlargement => same evidence, bit for bit
     npairs = 0
     for r in [r for r in runs if r.error is None and r.cfg["kind"] != "emcee_smc"][: ctx.scale(8, 40)]:
@@ -90,6 +92,34 @@ def run(ctx):
         if a != b or ea != eb or [float(x) for x in r.history.beta] != [float(x) for x in r2.history.beta]:
             ctx.violation(f"depends-on-cadence-or-enlargement:{r.cfg['seed']}",
                           f"log_evidence {a} vs {b} when only checkpoint cadence / n_final_samples differ", {"cfg": r.cfg, "cfg2": c2})
+    # "... or on whether the run was checkpointed": a run interrupted by an exception in a user call and resumed from the last
+    # checkpoint (the dictionary the callback kept, and its serialised form) is a run too: same recomputation, same evidence
+    nres = 0
+    import pickle
+    for r in [r for r in runs if r.error is None and r.cfg["kind"] != "emcee_smc" and r.cfg["ckpt"] in ("cb", "cb-every")][: ctx.scale(5, 30)]:
+        total = r.target.ncalls
+        if total < 8:
+            continue
+        for kf in sorted({total // 2, ctx.rng.randrange(4, total - 1)}):
+            bad = sr.do_run(r.cfg, fail_at=kf)
+            if bad.error is None or not bad.payloads:
+                continue
+            last = bad.payloads[-1]
+            for route, src in (("live-dict", last["live"]), ("bytes", last["bytes"])):
+                r2 = sr.do_run(r.cfg, resume_from=src, vid0=10000)
+                nres += 1
+                ctx.count(("resumed", r.cfg["seed"], kf, route), True, kind=f"resumed/{route}")
+                extra = {"fault_at_user_call": kf, "resumed_from_iteration": last["iteration"], "route": route}
+                if r2.error is not None:
+                    ctx.violation(f"resumed-run-raises:{route}:{r2.error[0]}", f"resume after a fault at user call {kf}: {r2.error[:2]}", dict({"cfg": r.cfg}, **extra))
+                    continue
+                audit(r2, f"resumed:{route}:{r.cfg['seed']}", extra)
+                a, b = nsutil.to_float(r.result.log_evidence), nsutil.to_float(r2.result.log_evidence)
+                ea, eb = nsutil.to_float(r.result.log_evidence_error), nsutil.to_float(r2.result.log_evidence_error)
+                if a != b or ea != eb:
+                    ctx.violation(f"depends-on-interruption:{route}:{r.cfg['seed']}",
+                                  f"log_evidence {b} +- {eb} after interruption and resume, {a} +- {ea} uninterrupted", dict({"cfg": r.cfg}, **extra))
+    ctx.extra["resumed_runs_audited"] = nres
     for k, (ok, d) in tie.items():
         ctx.oblig(f"correspondence:IR-vs-impl:{k}", ok and bool(irall), d)
     ctx.extra["metamorphic_pairs"] = npairs
